@@ -69,6 +69,23 @@ impl G<'_> {
         self.budget > 0
     }
 
+    /// A literal of `R` from the field expressions in the order in which they were generated
+    /// (= the order in which they are written, so call-site keys ascend in source order); the
+    /// fields they belong to are a random one of the six orders, independent of the declaration.
+    fn record(&mut self, es: Vec<E>) -> E {
+        let perm = *self.p.pick(&PERMS);
+        E::Record(false, perm.iter().copied().zip(es).collect())
+    }
+
+    /// Where the context fixes the type (annotated `let`, assignment to a variable of type `R`)
+    /// or the literal may keep its own anonymous type (`{ … }.f`), write it without the name.
+    fn maybe_anon(&mut self, e: E) -> E {
+        match e {
+            E::Record(false, fs) if self.p.chance(1, 2) => E::Record(true, fs),
+            other => other,
+        }
+    }
+
     fn int_lit(&mut self) -> E {
         match self.p.below(12) {
             0 => E::Int(2147483647),
@@ -101,7 +118,10 @@ impl G<'_> {
                 1 => E::Ctor(1, vec![self.int_lit(), self.int_lit()]),
                 _ => E::Ctor(2, vec![]),
             },
-            T::R => E::Record(vec![self.int_lit(), self.int_lit()]),
+            T::R => {
+                let es = vec![self.int_lit(), self.int_lit(), self.int_lit()];
+                self.record(es)
+            }
             T::L => E::List((0..self.p.below(3)).map(|_| self.int_lit()).collect()),
             T::V => unreachable!(),
         }
@@ -137,7 +157,8 @@ impl G<'_> {
             }
             T::R => {
                 let (k, v, w) = (self.k(), self.leaf(T::I), self.leaf(T::I));
-                E::Record(vec![E::Host(H_EMIT, vec![k, v]), w])
+                let (k2, v2) = (self.k(), self.leaf(T::I));
+                self.record(vec![E::Host(H_EMIT, vec![k, v]), w, E::Host(H_EMIT, vec![k2, v2])])
             }
             T::V => unreachable!(),
         }
@@ -215,7 +236,8 @@ impl G<'_> {
                 }
                 77..=90 => {
                     let r = self.expr(T::R, d1);
-                    E::Field(Box::new(r), self.p.below(2) as usize)
+                    let r = self.maybe_anon(r);
+                    E::Field(Box::new(r), self.p.below(FIELDS.len() as u64) as usize)
                 }
                 _ => self.eleaf(T::I),
             },
@@ -295,8 +317,8 @@ impl G<'_> {
                 _ => E::Ctor(2, vec![]),
             },
             T::R => {
-                let (a, b) = (self.expr(T::I, d1), self.expr(T::I, d1));
-                E::Record(vec![a, b])
+                let (a, b, c) = (self.expr(T::I, d1), self.expr(T::I, d1), self.expr(T::I, d1));
+                self.record(vec![a, b, c])
             }
             T::L => match self.p.below(10) {
                 0..=6 => {
@@ -318,6 +340,7 @@ impl G<'_> {
             0..=29 if !asg.is_empty() => {
                 let x = *self.p.pick(&asg);
                 let v = self.expr(self.var_tys[x], d);
+                let v = self.maybe_anon(v);
                 E::Assign(x, Box::new(v))
             }
             30..=54 => {
@@ -424,6 +447,7 @@ impl G<'_> {
                 0..=34 => {
                     let ty = *self.p.pick(&LET_TYS);
                     let e = self.expr(ty, d);
+                    let e = self.maybe_anon(e);
                     let x = self.fresh(ty, true);
                     stmts.push(S::Let(x, e));
                 }
